@@ -403,6 +403,7 @@ package compiler
 //@   property C06
 //@   requires pass != nil && visitor != nil
 //@   ensures  nullable: result.1 == nil && !field.Required ==> result.0.Type.Nullable
+//@   ensures  recursed: result.1 == nil ==> called("compiler.(*Visitor).VisitType", visitor, schema, field.Type)
 //@   ensures  kept: result.1 == nil ==> result.0.Name == field.Name && result.0.Required == field.Required && result.0.Comments == field.Comments
 //
 // disjunction_with_null_to_optional: a two-branch `T | null` union is replaced by T made nullable
@@ -432,3 +433,9 @@ package compiler
 //@ func (*PrefixEnumValues).enumMemberNameFromValue
 //@   pure
 //@   modifies nothing
+//
+// The visitor protocol for struct fields: when OnStructField is set the visitor does not descend into
+// the field's type itself - the callback has to (C06: otherwise nested structs are never rewritten).
+// Calls to VisitType are recorded as ghost facts so that callbacks can state that they recursed.
+//@ func (*Visitor).VisitType
+//@   traced
